@@ -45,7 +45,8 @@ REQUIRED_COUNTERS = ['configurations_checked', 'processes_recorded',
                      'input_name_scheme_dotted',
                      'input_name_scheme_mixed-leading',
                      'configurations_with_delete_existing',
-                     'result_files_looked_for_after_all_nodes']
+                     'result_files_looked_for_after_all_nodes',
+                     'reruns_on_top_of_existing_result_files']
 EXHAUSTIVE = True
 EXHAUSTIVE_SCOPE = 'coverage.box'
 
@@ -68,10 +69,31 @@ class FakeProcess:
         # the task writes its result file (what run_file does at its first
         # save); whether it is still there is judged after ALL nodes ran
         try:
-            with open(self.args[1], 'w') as f:
-                f.write(json.dumps({'input': self.args[0],
-                                    'n_runs': self.args[2]}))
-        except (OSError, IndexError, TypeError):
+            n_runs = int(self.args[2])
+            rec = [{'inputs': {
+                'code': {'name': 'Toric2DCode', 'parameters': {
+                    'L_x': 3, 'L_y': 3, 'L_z': None}, 'n': 18, 'k': 2,
+                    'd': 3},
+                'error_model': {'name': 'PauliErrorModel', 'parameters': {
+                    'r_x': 1 / 3, 'r_y': 1 / 3, 'r_z': 1 / 3,
+                    'deformation_name': None, 'deformation_kwargs': {}}},
+                'decoder': {'name': 'MatchingDecoder', 'parameters': {
+                    'error_type': None, 'weights': None}},
+                'error_rate': 0.1,
+                'method': {'name': 'direct', 'parameters': {}}},
+                'results': {'n_runs': n_runs, 'wall_time': 0.1,
+                            'effective_error': [[0, 0, 0, 0]] * n_runs,
+                            'success': [True] * n_runs,
+                            'codespace': [True] * n_runs}}]
+            raw = json.dumps(rec).encode()
+            if str(self.args[1]).endswith('.gz'):
+                import gzip
+                with gzip.open(self.args[1], 'wb', compresslevel=1) as f:
+                    f.write(raw)
+            else:
+                with open(self.args[1], 'wb') as f:
+                    f.write(raw)
+        except (OSError, IndexError, TypeError, ValueError):
             pass
 
     def join(self):
@@ -104,6 +126,29 @@ def input_name(scheme, i):
         return ['3d_toric.json', 'toric.json', '2d.json', 'xzzx_3.json',
                 '10_rates.json', 'b.json', '7.json', 'a1.json'][i]
     return f'toric.L{4 + 2 * i}.json'
+
+
+def input_content(i):
+    """A legal specification in each of the three layouts run_file reads:
+    one ranges dict, a list of ranges, explicit runs."""
+    rng_ = {'label': f'in{i}',
+            'code': {'name': 'Toric2DCode',
+                     'parameters': [{'L_x': 3, 'L_y': 3}]},
+            'error_model': {'name': 'PauliErrorModel', 'parameters': [
+                {'r_x': 1 / 3, 'r_y': 1 / 3, 'r_z': 1 / 3}]},
+            'decoder': {'name': 'MatchingDecoder', 'parameters': {}},
+            'error_rate': [0.05 + 0.01 * i, 0.1]}
+    if i % 3 == 0:
+        return {'comments': '', 'ranges': rng_}
+    if i % 3 == 1:
+        second = dict(rng_, error_rate=[0.2])
+        return {'ranges': [rng_, second]}
+    return {'runs': [{'label': f'in{i}', 'code': {
+        'name': 'Toric2DCode', 'parameters': {'L_x': 3, 'L_y': 3}},
+        'error_model': {'name': 'PauliErrorModel', 'parameters': {
+            'r_x': 1 / 3, 'r_y': 1 / 3, 'r_z': 1 / 3}},
+        'decoder': {'name': 'MatchingDecoder', 'parameters': {}},
+        'error_rate': 0.1}]}
 
 
 def tasks_per_input_max(n_tasks, n_inputs):
@@ -201,7 +246,7 @@ def run_block(task, out):
         for i in range(n_inputs):
             with open(os.path.join(d, 'inputs', input_name(scheme, i)),
                       'w') as f:
-                f.write('{}')
+                json.dump(input_content(i), f)
         out.count('input_name_scheme_' + scheme)
         for N in task['nodes']:
             for C in task['cores']:
@@ -216,6 +261,12 @@ def run_block(task, out):
                 for ti, trials in enumerate(ts):
                     check_config(out, cli, fake, d, n_inputs, N, C, trials,
                                  delete_existing=(ti + N + C) % 3 == 0)
+                # the allocation is run again for more trials on top of the
+                # result files the run above left behind
+                if ts:
+                    out.count('reruns_on_top_of_existing_result_files')
+                    check_config(out, cli, fake, d, n_inputs, N, C,
+                                 ts[-1] + tmin + 3, delete_existing=False)
     finally:
         cli.multiprocessing = real_mp
         shutil.rmtree(d, ignore_errors=True)
